@@ -213,7 +213,7 @@ class Checker:
                             elif not _has_quantifier(conj):
                                 s.add(conj)
                 for cst in consts:
-                    if str(cst) in ('n', 'np', 'nseg', 'ref_n'):
+                    if str(cst) in ('n', 'np', 'nseg', 'ref_n', 'na'):
                         s.add(cst >= 0, cst <= rnd.choice([2, 3, 5, 7]))
                         continue
                     hi = rnd.choice([3, 12, 100, 5000, 10 ** 6])
